@@ -215,6 +215,9 @@ func witnessClass(c *Case, rule string) string {
 	if rule == "C13.foreign-cycle-misclassified" {
 		return "user-error-wraps-foreign-cycle-rejection"
 	}
+	if rule == "C13.errors-is-panics" {
+		return "raw-foreign-dig-error"
+	}
 	if rule == "C13.rootcause-nested-dig-error" {
 		// the rule itself pins the input (a user function's error wrapping another container's dig error) and
 		// the observed wrong answer (the foreign error's root cause): one class
